@@ -8,3 +8,11 @@ import Calc.Props.C15
 #print axioms Calc.Props.C15.C15_complex_exact
 #print axioms Calc.Props.C15.C15_complex_determines
 #print axioms Calc.Props.C15.C15_number_value
+#print axioms Calc.Props.C15.C15_measurement_split
+#print axioms Calc.Props.C15.C15_measurement_number_text
+#print axioms Calc.Props.C15.C15_measurement_determines
+#print axioms Calc.Props.C15.C15_matrix_lines
+#print axioms Calc.Props.C15.C15_matrix_padding
+#print axioms Calc.Props.C15.C15_matrix
+#print axioms Calc.Props.C15.C15_matrix_empty
+#print axioms Calc.Props.C15.C15_matrix_value
